@@ -3,12 +3,25 @@
    the 1st, 2nd, … call (0 = CONTINUE once it is exhausted).
    Observation: one step per call, "<path> <flags> <parent> <key|index> <depth>", then
    "ret <r>".  path = "/" for the root, "/i/j" = j-th child of the i-th child of the root;
+   runs of equal components are written once, "/0^1000/1";
    parent = "-" | "a@<path>" | "o@<path>"; key/index = "-" | "k<hex>" | "i<dec>". *)
 open Model
 open Util
 
-let path_str p = if p = [] then "/" else String.concat "" (List.map (fun i -> "/" ^ string_of_z i) p)
-let rec drop_last = function [] -> [] | [_] -> [] | x :: t -> x :: drop_last t
+(* paths are run-length encoded so that deep trees stay printable: "/0^1000/1" = 1000 times
+   component 0, then 1 *)
+let path_str p =
+  if p = [] then "/" else begin
+    let b = Buffer.create 64 in
+    let flush v n = if n > 0 then begin
+        Buffer.add_char b '/'; Buffer.add_string b (string_of_z v);
+        if n > 1 then (Buffer.add_char b '^'; Buffer.add_string b (string_of_int n)) end in
+    let rec go cur n = function
+      | [] -> flush cur n
+      | x :: t -> if n > 0 && x = cur then go cur (n + 1) t else (flush cur n; go x 1 t) in
+    go Z0 0 p; Buffer.contents b
+  end
+let drop_last l = match List.rev l with [] -> [] | _ :: t -> List.rev t
 
 let ev_str e =
   let parent = match e.ev_parent with
@@ -19,15 +32,23 @@ let ev_str e =
     | KNone -> "-" | KKey k -> "k" ^ hex_of_bytes k | KIdx i -> "i" ^ string_of_z i in
   Printf.sprintf "%s %s %s %s %s" (path_str e.ev_path) (string_of_z e.ev_flags) parent ki (string_of_z e.ev_depth)
 
-let show (calls, ret) = String.concat " | " (List.map ev_str calls @ ["ret " ^ string_of_z ret])
+let show (calls, ret) = String.concat " | " (List.rev (("ret " ^ string_of_z ret) :: List.rev_map ev_str calls))
 
 let run line =
   match split_on ' ' line with
   | [tree; sched] ->
     let v = Jvtext.jv_of_string tree in
     let codes = if sched = "-" then [||] else Array.of_list (List.map z_of_string (split_on ',' sched)) in
-    (* the callback as a function of the history (newest first): the n-th call gets codes.(n-1) *)
-    let userfunc hist = let n = List.length hist in if n - 1 < Array.length codes then codes.(n - 1) else Z0 in
+    (* the callback as a function of the history (newest first): the n-th call gets codes.(n-1).
+       n = List.length hist; the length of the previous history is remembered so that the usual
+       case (the history grew by one call) costs O(1) on large trees *)
+    let last = ref ([], 0) in
+    let userfunc hist =
+      let n = match hist with
+        | _ :: t when t == fst !last -> snd !last + 1
+        | _ -> List.length hist in
+      last := (hist, n);
+      if n - 1 < Array.length codes then codes.(n - 1) else Z0 in
     let model = show (json_c_visit userfunc v) in
     let spec = show (spec_visit userfunc v) in
     if model <> spec then "SPEC-MISMATCH " ^ model ^ " <> " ^ spec else model
